@@ -467,6 +467,52 @@ func c08Offline(r *gen.Rng, o *out.W) {
 	o.Sample(fmt.Sprintf("offline script window=%d queue=%d, %d lines", win, queue, len(w.trace)))
 }
 
+// packet ids wrap around (C08): with window 2 a persistent subscriber withholds the acknowledgement of its first delivery
+// and acknowledges every later one at once.  After 65534 further deliveries the session's 16-bit id counter is back at the
+// id of the withheld one.  MQTT 3.1.1 §2.3.1: a new PUBLISH takes a packet identifier that is currently unused; the
+// outgoing store is keyed by id, so a re-used id replaces the record of the unacknowledged message ("stays recorded until
+// the client's PUBACK" is broken, the message is not retransmitted after a reconnect).  Every line is checked by the
+// model; the script is long (about 460 000 lines), so it runs once per check, on shard 0.
+func c08Wrap(o *out.W) {
+	w := newWorld(o, "C08", 2, 100, nil)
+	w.longCase = true
+	p := w.Conn()
+	w.Connect(p, "PUB", true, nil, 0, "", "")
+	s := w.Conn()
+	w.Connect(s, "SUB", false, nil, 0, "", "")
+	w.Subscribe(s, packet.Subscription{Topic: "w", QOS: 1})
+	first := w.Publish(p, "w", 1, false, false)
+	if len(w.peers[s].unacked) != 1 {
+		panic("c08Wrap: first delivery missing")
+	}
+	held := w.peers[s].unacked[0].id // never acknowledged on this connection
+	rounds, lastTag, lastID := 0, "", packet.ID(0)
+	for rounds < 65535+10 && w.alive(s) && w.alive(p) {
+		rounds++
+		lastTag = w.Publish(p, "w", 1, false, false)
+		g := w.peers[s].got
+		lastID = g[len(g)-1].ID
+		if rounds >= 65535 || lastID == held {
+			break // the delivery that had to step over the id still in use
+		}
+		w.AckOne(s, 1)
+	}
+	o.Count(fmt.Sprintf("c08wrap/rounds-%d", rounds))
+	// the connection is lost with (at least) the first delivery unacknowledged; the session is resumed
+	w.Drop(s)
+	s2 := w.Reconnect(s, false)
+	dups := 0
+	for _, g := range w.peers[s2].got {
+		if g.Dup {
+			dups++
+		}
+	}
+	w.AckAll(s2)
+	w.finish()
+	o.Distinct("c08 wrap")
+	o.Sample(fmt.Sprintf("id wrap: window 2, %q held under id %d, %d further deliveries, the last one (%q) under id %d; %d retransmissions after the resume; %d lines", first, held, rounds, lastTag, lastID, dups, len(w.trace)))
+}
+
 // termination causes for C12
 func c12Script(r *gen.Rng, o *out.W) {
 	creds := map[string]string(nil)
@@ -1206,6 +1252,9 @@ func TestHarness(t *testing.T) {
 		rs("C08 subscriber behaviours", func() profile {
 			return profile{window: 1 + r.Intn(4), queue: 100, clients: 2 + r.Intn(2), steps: 30 + r.Intn(40), wSub: 3, wPub: 10, wAck: 6, wDrop: 2, wRecon: 3, wFail: 2, wSpur: 1, qos: all}
 		})
+		if *fShard == 0 {
+			runCase(t, o, "C08 id wrap", func() { c08Wrap(o) })
+		}
 	case "C11":
 		rs("C11 retained", func() profile {
 			return profile{window: 10, queue: 100, clients: 2 + r.Intn(3), steps: 30 + r.Intn(40), wSub: 8, wUnsub: 1, wPub: 10, wAck: 6, wDrop: 1, wRecon: 2, retain: 60, wills: true, emptyWills: true, qos: all, multiFilter: true}
